@@ -473,7 +473,14 @@ static int _yr_scan_verify_chained_string_match(
       // ending_offset.
       ending_offset = match->offset + match->match_length;
 
-      if (ending_offset + matching_string->chain_gap_max < lowest_offset)
+      // Matches are not necessarily found in ascending offset order: they are
+      // verified when one of the string's atoms is found, and the distance
+      // from the atom back to the start of the match (at most
+      // YR_RE_SCAN_LIMIT) varies from atom to atom. A match of the current
+      // string starting up to YR_RE_SCAN_LIMIT bytes before lowest_offset can
+      // still show up, so leave that much slack before discarding.
+      if (ending_offset + matching_string->chain_gap_max + YR_RE_SCAN_LIMIT <
+          lowest_offset)
       {
         // If the current match is too far away from the unconfirmed match,
         // remove the unconfirmed match from the list because it has been
